@@ -90,6 +90,27 @@ def other_fs_root(ref_dir):
     return None
 
 
+def tree_fingerprint():
+    """Content hash of the lian sources the subprocesses import.  A determinism check needs a fixed tree: when
+    the tree is edited while the runs of one case are under way (shared development checkout), the case is
+    discarded instead of blaming lian for the difference between the old and the new code."""
+    import hashlib
+    h = hashlib.blake2b(digest_size=12)
+    root = os.path.join(common.REPO_SRC, "lian")
+    for dp, dns, fns in os.walk(root):
+        dns[:] = sorted(d for d in dns if d != "__pycache__")
+        for n in sorted(fns):
+            if n.endswith((".py", ".yaml", ".so")):
+                p = os.path.join(dp, n)
+                h.update(os.path.relpath(p, root).encode())
+                try:
+                    with open(p, "rb") as f:
+                        h.update(f.read())
+                except OSError:
+                    h.update(b"<unreadable>")
+    return h.hexdigest()
+
+
 # ---------------------------------------------------------------------------------------------
 # observation
 
@@ -315,7 +336,13 @@ def stats_of(snap):
                 st["units"] = int((df["symbol_type"] == 1).sum())
             elif rel == "frontend/unique_symbol_ids":
                 df = pd.read_feather(io.BytesIO(data))
-                st["ext_ids"] = int(-int(df["negative_symbol_id"].iloc[0]))
+                # negative ids handed out (external symbols, `this`): the counter starts at BUILTIN_SYMBOL_START_ID
+                try:
+                    from lian.config import config as _cfg
+                    start = -int(_cfg.BUILTIN_SYMBOL_START_ID)
+                except Exception:
+                    start = 120
+                st["ext_ids"] = int(-int(df["negative_symbol_id"].iloc[0])) - start
         except Exception:
             pass
     return st
@@ -341,6 +368,7 @@ def run_case(case, col=None, only=None):
     sbase = None
     info = {"stats": None, "skipped": [], "error": None, "rcs": {}, "stepover": []}
     out = []
+    fp0 = tree_fingerprint()
     try:
         write_project(os.path.join(base, "in_t", "proj"), case["files"])
         write_project(os.path.join(base, "in_p", "pred"), case.get("pred_files") or PRED_PROJECT)
@@ -403,11 +431,23 @@ def run_case(case, col=None, only=None):
                 if hidden and common.classify(ID, sig)[0] == "known":
                     info["stepover"].append(sig)
                 out.append((sig, what))
+        if tree_fingerprint() != fp0:
+            info["error"] = "source-tree-changed in the middle of the case"
+            return [], info
         return out, info
     finally:
         shutil.rmtree(base, ignore_errors=True)
         if sbase:
             shutil.rmtree(sbase, ignore_errors=True)
+
+
+def run_case_stable(case, only=None, attempts=3):
+    """run_case, repeated when the lian sources were edited while the case was running."""
+    for _ in range(attempts):
+        discs, info = run_case(case, only=only)
+        if not (info.get("error") or "").startswith("source-tree-changed"):
+            break
+    return discs, info
 
 
 def dedupe(discs):
@@ -434,8 +474,8 @@ def record(col, case, discs, info, labels=()):
     col.label("units:%s" % min(st.get("units", 0), 5))
     if st.get("flows"):
         col.label("has_taint_flows")
-    if st.get("ext_ids", 0) >= 2:
-        col.label("external_ids>=2")
+    if st.get("ext_ids", 0) >= 4:
+        col.label("negative_symbol_ids>=4")
     if case.get("enable_p2"):
         col.label("enable_p2")
     if st.get("call_paths", 0) >= 1 and st.get("state_rows", 0) >= 20:
@@ -474,6 +514,8 @@ def gen_shard(arg):
     col = Collector()
     if source == "gen":
         proj = c14_gen.python_projects()
+    elif source == "gen:javascript":
+        proj = c14_gen.javascript_projects()
     else:
         proj = c14_gen.corpus_projects_strategy(source.split(":")[1])
     seed32 = st.integers(2, 2 ** 32 - 1)
@@ -497,7 +539,7 @@ def gen_shard(arg):
                 "seeds": {"derived": s1, "rand1": s2, "rand2": s3}}
         if p.get("origin"):
             case["origin"] = p["origin"]
-        discs, info = run_case(case)
+        discs, info = run_case_stable(case)
         record(col, case, discs, info, labels=("source:%s" % source,))
 
     prop()
@@ -507,7 +549,7 @@ def gen_shard(arg):
 def replay_shard(path):
     col = Collector()
     rec = common.load_replay(path)
-    discs, info = run_case(rec["case"])
+    discs, info = run_case_stable(rec["case"])
     record(col, rec["case"], discs, info, labels=("replayed",))
     if info.get("error"):
         col.error("replay %s: %s" % (path, info["error"]))
@@ -536,7 +578,7 @@ def shrink_case(case, sig, max_tests=30):
 
     def fails(c):
         tests[0] += 1
-        discs, info = run_case(c, only=run_id)
+        discs, info = run_case_stable(c, only=run_id)
         return any(tuple(s) == tuple(sig) for s, _ in discs)
     cur = dict(case)
     if not fails(cur):
@@ -563,7 +605,7 @@ def shrink_case(case, sig, max_tests=30):
 
 def replay(path):
     rec = common.load_replay(path)
-    discs, info = run_case(rec["case"])
+    discs, info = run_case_stable(rec["case"])
     if info.get("error"):
         print("HARNESS-ERROR: property=%s replay %s: %s" % (ID, path, info["error"]))
         return 2
@@ -590,13 +632,13 @@ def replay(path):
 def plan(tier, seed, t0):
     ncpu = common.NCPU
     if tier == "quick":
-        n_gen, n_corpus, per = 16, 8, 1
-        extra = []
+        n_gen, n_corpus, per = 14, 8, 1
+        extra = [("gen:javascript", 2)]
         deadline = None
     else:
         per = 6
-        n_gen, n_corpus = 70 * per, 26 * per
-        extra = [("corpus:javascript", 4 * per), ("corpus:java", 2 * per)]
+        n_gen, n_corpus = 64 * per, 24 * per
+        extra = [("gen:javascript", 10 * per), ("corpus:javascript", 3 * per), ("corpus:java", 1 * per)]
         deadline = t0 + 17 * 60
     args = []
     shard = 0
